@@ -882,7 +882,8 @@ class StubsStringGenerator:
                 )
                 superclass_methods_text += f"\n{class_string}\n"
 
-        already_defined_names = already_defined_names.union(existing_names)
+        # Update the set of the caller, so that members that other internal superclasses also define are added only once
+        already_defined_names.update(existing_names)
 
         for superclass_superclass in superclass_class.superclasses:
             name = superclass_superclass.split(".")[-1]
